@@ -256,6 +256,7 @@ def clause_classes(ix, m, fn, expr, depth=0):
     classes, opaque = set(), []
     defs = _local_defs(fn) if fn is not None else {}
     params = {a.arg for a in (fn.args.args + fn.args.kwonlyargs)} if fn is not None else set()
+    params |= {n.id for n in walk_no_nested(fn) if isinstance(n, ast.Name) and isinstance(n.ctx, ast.Store)} if fn is not None else set()
 
     def root_name(e):
         while isinstance(e, (ast.Attribute, ast.Subscript)):
@@ -275,6 +276,10 @@ def clause_classes(ix, m, fn, expr, depth=0):
         if isinstance(e, ast.IfExp):
             visit(e.body, seen)
             visit(e.orelse, seen)
+            return
+        if isinstance(e, ast.BinOp) and isinstance(e.op, ast.Add):      # list concatenation
+            visit(e.left, seen)
+            visit(e.right, seen)
             return
         if isinstance(e, ast.Name) and e.id in defs and e.id not in seen:
             for v in defs[e.id]:
@@ -403,10 +408,12 @@ def rule_finerr(ctx, floor=5):
                         val = _const(kws[FLAG])
                         if val is Ellipsis:
                             raise AnalysisError('C21-FINERR: %s(%s=%s) in %s.%s is not a constant' % (c.name, FLAG, ast.unparse(kws[FLAG]), m.short, qual))
+                        explicit = True
                     else:
                         d = ix.find_class_attr(c, FLAG)
                         val = _const(d[1]) if d else True
-                    local_sites[id(n)] = [n, c, kws, bool(val)]
+                        explicit = False
+                    local_sites[id(n)] = [n, c, kws, bool(val), explicit]
             # attribute stores  <local>.handle_error_case = <const>  on a node built in this function
             defs = _local_defs(fn)
             for n in walk_no_nested(fn):
@@ -423,12 +430,13 @@ def rule_finerr(ctx, floor=5):
                                 if isinstance(t.value, ast.Name) and t.value.id == 'self' and owner is not None and owner.name in fam_names and val is not Ellipsis and val:
                                     continue
                                 raise AnalysisError('C21-FINERR: store `%s` in %s.%s cannot be attributed to a construction site' % (ast.unparse(n), m.short, qual))
-                            tgt[3] = tgt[3] and bool(val)
-            for n, c, kws, flag in local_sites.values():
+                            tgt[3] = bool(val)
+                            tgt[4] = True
+            for n, c, kws, flag, explicit in local_sites.values():
                 key = '%s.%s:%s(%s)' % (m.short, qual, c.name, 'clause runs on error' if flag else 'clause skipped on error')
                 r.inst(key, sample=key)
-                if flag or cfa_reads_flag:
-                    continue
+                if flag or cfa_reads_flag or not explicit:
+                    continue            # (a site that relies on a class default that is off is covered by the class-default obligation)
                 if 'finally_clause' not in kws:
                     raise AnalysisError('C21-FINERR: %s built without a finally_clause keyword in %s.%s' % (c.name, m.short, qual))
                 classes, opaque = clause_classes(ix, m, fn, kws['finally_clause'])
